@@ -258,4 +258,115 @@ theorem aclBytes_eq_layout (aces : List Bytes) (hs : 8 + aces.flatten.length < 6
 
 end SecDesc
 
+namespace Rpc
+/-! presentation contexts, bind / alter-context bodies, the verification trailer and its commands.
+    `packs:x` is `b"".join(e.pack() for e in self.x)`, `.countOf "x"` is `len(self.x)` of a list-valued field,
+    `a.value|b.value` is the integer `self.a.value | self.b.value`. -/
+
+/-- `b"".join([x.pack() for x in xs])` -/
+def packs {α : Type} (f : α → R Bytes) (xs : List α) : R Bytes := do
+  let l ← xs.mapM f
+  pure l.flatten
+
+def contextLayout : List Item :=
+  [.int "context_id" 2, .countOf "transfer_syntaxes" 2, .bytes "pack:abstract_syntax", .bytes "packs:transfer_syntaxes"]
+def contextEnv (c : ContextElement) : Env where
+  ints f := if f = "context_id" then c.contextId else 0
+  bytes f := if f = "pack:abstract_syntax" then syntaxPack c.abstractSyntax
+    else if f = "packs:transfer_syntaxes" then packs syntaxPack c.transferSyntaxes else .error .keyError
+  counts f := if f = "transfer_syntaxes" then c.transferSyntaxes.length else 0
+
+theorem contextPack_eq_layout (c : ContextElement) : contextPack c = Layout.pack (contextEnv c) contextLayout := by
+  unfold contextPack contextLayout
+  simp only [Layout.pack, contextEnv, le, packs]
+  simp (config := { decide := true }) only [if_true, if_false, bind, Except.bind, pure, Except.pure, List.append_assoc, List.append_nil]
+  repeat' split
+  all_goals simp_all
+
+def bindLayout : List Item :=
+  [.bytes "pack:header", .int "max_xmit_frag" 2, .int "max_recv_frag" 2, .int "assoc_group" 4, .countOf "contexts" 4,
+   .bytes "packs:contexts", .bytes "optpack:sec_trailer"]
+def bindEnv (h : Header) (t : Option SecTrailer) (mx mr ag : Nat) (ctxs : List ContextElement) : Env where
+  ints f := if f = "max_xmit_frag" then mx else if f = "max_recv_frag" then mr else if f = "assoc_group" then ag else 0
+  bytes f := if f = "pack:header" then headerPack h else if f = "packs:contexts" then packs contextPack ctxs
+    else if f = "optpack:sec_trailer" then optTrailerPack t else .error .keyError
+  counts f := if f = "contexts" then ctxs.length else 0
+
+theorem bindPack_eq_layout (h : Header) (t : Option SecTrailer) (alter : Bool) (mx mr ag : Nat) (ctxs : List ContextElement) :
+    pduPack ⟨h, t, .bind alter mx mr ag ctxs⟩ = Layout.pack (bindEnv h t mx mr ag ctxs) bindLayout := by
+  unfold pduPack bindLayout
+  simp only [Layout.pack, bindEnv, le, packs]
+  simp (config := { decide := true }) only [if_true, if_false, bind, Except.bind, pure, Except.pure, List.append_assoc, List.append_nil]
+  repeat' split
+  all_goals simp_all
+
+def commandLayout : List Item := [.int "command.value|flags.value" 2, .lenOf "value" 2, .bytes "value"]
+/-- `Command(self.command, self.flags, value)`: the value is already bytes when `Command.pack` runs -/
+def commandEnv (command flags : Nat) (value : Bytes) : Env where
+  ints f := if f = "command.value|flags.value" then command ||| flags else 0
+  bytes f := if f = "value" then .ok value else .error .keyError
+
+theorem commandPack_eq_layout (c : Command) :
+    commandPack c = (cmdValuePack c).bind fun v => Layout.pack (commandEnv c.command c.flags v) commandLayout := by
+  unfold commandPack commandLayout
+  simp only [Layout.pack, commandEnv, le]
+  simp (config := { decide := true }) only [if_true, if_false, bind, Except.bind, pure, Except.pure, List.append_assoc, List.append_nil]
+  repeat' split
+  all_goals simp_all
+
+def vtLayout : List Item := [.bytes "signature", .bytes "packs:commands"]
+def vtEnv (cmds : List Command) : Env where
+  ints _ := 0
+  bytes f := if f = "signature" then .ok vtSignature else if f = "packs:commands" then packs commandPack cmds else .error .keyError
+
+theorem vtPack_eq_layout (cmds : List Command) : vtPack cmds = Layout.pack (vtEnv cmds) vtLayout := by
+  unfold vtPack vtLayout
+  simp only [Layout.pack, vtEnv, packs]
+  simp (config := { decide := true }) only [if_true, if_false, bind, Except.bind, pure, Except.pure, List.append_assoc, List.append_nil]
+  repeat' split
+  all_goals simp_all
+
+/-! the `value` of the three known verification commands -/
+def bitmaskValueLayout : List Item := [.int "bits" 4]
+def pcontextValueLayout : List Item := [.bytes "pack:interface_id", .bytes "pack:transfer_syntax"]
+def header2ValueLayout : List Item :=
+  [.int "packet_type" 1, .const [0, 0, 0], .bytes "pack:data_rep", .int "call_id" 4, .int "context_id" 2, .int "opnum" 2]
+
+def bitmaskEnv (bits : Nat) : Env where
+  ints f := if f = "bits" then bits else 0
+  bytes _ := .error .keyError
+def pcontextEnv (i t : SyntaxId) : Env where
+  ints _ := 0
+  bytes f := if f = "pack:interface_id" then syntaxPack i else if f = "pack:transfer_syntax" then syntaxPack t else .error .keyError
+def header2Env (pt : Nat) (dr : DataRep) (callId cid op : Nat) : Env where
+  ints f := if f = "packet_type" then pt else if f = "call_id" then callId else if f = "context_id" then cid
+    else if f = "opnum" then op else 0
+  bytes f := if f = "pack:data_rep" then dataRepPack dr else .error .keyError
+
+theorem bitmaskValue_eq_layout (ct fl bits : Nat) :
+    cmdValuePack ⟨ct, fl, .bitmask bits⟩ = Layout.pack (bitmaskEnv bits) bitmaskValueLayout := by
+  unfold cmdValuePack bitmaskValueLayout
+  simp only [Layout.pack, bitmaskEnv, pcontextEnv, header2Env, le]
+  simp (config := { decide := true }) only [if_true, if_false, bind, Except.bind, pure, Except.pure, List.append_assoc, List.append_nil]
+  repeat' split
+  all_goals simp_all
+
+theorem pcontextValue_eq_layout (ct fl : Nat) (i t : SyntaxId) :
+    cmdValuePack ⟨ct, fl, .pcontext i t⟩ = Layout.pack (pcontextEnv i t) pcontextValueLayout := by
+  unfold cmdValuePack pcontextValueLayout
+  simp only [Layout.pack, bitmaskEnv, pcontextEnv, header2Env, le]
+  simp (config := { decide := true }) only [if_true, if_false, bind, Except.bind, pure, Except.pure, List.append_assoc, List.append_nil]
+  repeat' split
+  all_goals simp_all
+
+theorem header2Value_eq_layout (ct fl pt : Nat) (dr : DataRep) (callId cid op : Nat) :
+    cmdValuePack ⟨ct, fl, .header2 pt dr callId cid op⟩ = Layout.pack (header2Env pt dr callId cid op) header2ValueLayout := by
+  unfold cmdValuePack header2ValueLayout
+  simp only [Layout.pack, bitmaskEnv, pcontextEnv, header2Env, le]
+  simp (config := { decide := true }) only [if_true, if_false, bind, Except.bind, pure, Except.pure, List.append_assoc, List.append_nil]
+  repeat' split
+  all_goals simp_all
+
+end Rpc
+
 end DpapiNg
